@@ -255,11 +255,11 @@ Fixpoint has_dotdot_sub (n : list N) : bool :=
   | _ => false
   end.
 (* sanitizePath(base, name): rejects the empty name, names containing a separator, "." and "..", and
-   any joined string containing ".." (the post-check).  For a validated name only the last applies. *)
+   any joined path with a ".." COMPONENT (the post-check; never true for handle paths and sane names). *)
 Definition name_sane (n : name) : bool :=
   negb (match n with [] => true | _ => false end) && negb (existsb (fun b => (b =? slash) || (b =? backslash)) n)
   && negb (is_dot n) && negb (is_dotdot n).
-Definition sanitize_ok (d : path) (n : name) : bool := name_sane n && negb (existsb has_dotdot_sub (d ++ [n])).
+Definition sanitize_ok (d : path) (n : name) : bool := name_sane n && negb (existsb is_dotdot (d ++ [n])).
 
 (* ---------- requests, observations ---------- *)
 Record sattr := { s_mode : option N; s_uid : option N; s_gid : option N; s_size : option N;
